@@ -189,9 +189,13 @@ Fixpoint scrub_names (formats : list str) : res (list sitem) :=
         | RBad => Err ValueError
         | RNoMatch =>
           if is_nil f then OK []
-          else match parse_int f with
-               | Some z => do i <- scrub_int z; OK [i]
-               | None => Err ValueError end
+          else (* as repaired (F37): a code is made of decimal digits only, blanks around them tolerated *)
+               let f' := strip_ws f in
+               if negb (is_nil f') && forallb is_digit f' then
+                 match parse_int f' with
+                 | Some z => do i <- scrub_int z; OK [i]
+                 | None => Err ValueError end
+               else Err ValueError
         end
       end;
     do rest <- scrub_names r;
